@@ -689,6 +689,9 @@ def run(ctx):
     after_rejected(ctx, g.cases)
     run_tokens(ctx, model)
     run_spec(ctx, g.cases)
+    # counters and copies observed through lorem word counts (harness/lorem_util.py)
+    import lorem_util
+    lorem_util.run_c02(ctx, model)
     picks = [k for k, c in enumerate(g.cases) if c.label == 'random'][:3] + \
             [k for k, c in enumerate(g.cases) if c.label == 'skeleton' and 'maxRepeat' in c.cfg][40:42]
     for k in picks:
@@ -700,6 +703,9 @@ def run(ctx):
 
 def replay(ctx, obj):
     rp = obj.get('replay', {})
+    if rp.get('component') == 'C02lorem':
+        import lorem_util
+        return lorem_util.replay_c02(rp)
     if rp.get('kind') == 'tokenize':
         r = impl_markup(rp['src'])
         want = ('RepeaterNumber',) + tuple(rp['want'])
